@@ -426,6 +426,111 @@ async fn data_flood_exact(case: &serde_json::Value, rep: Arc<Mutex<Report>>) {
     .await;
 }
 
+
+const CELL: usize = 256;
+
+fn cell(i: u16, off: u16) -> Vec<u8> {
+    let mut v = Vec::with_capacity(CELL);
+    v.extend(i.to_le_bytes());
+    v.extend(off.to_le_bytes());
+    let fill = (i as u32 * 7 + off as u32 * 13 + 1) as u8;
+    v.resize(CELL, fill);
+    v
+}
+
+/// MuxWrite.tla / TraceMuxWrite.tla: the write half under back-pressure with writes that give up. The peer's application accepts the
+/// stream but reads nothing at first, the transport is a small in-memory pipe, the peer's read buffer holds two frames: the writer's
+/// `write_all` calls (each under a short deadline) start to fail. Every call and its result is logged; once a few have failed the
+/// reader drains the stream to its end and what it obtained is decoded into (record, cell) pairs. TLC decides whether the stream is
+/// "every completed write, a prefix of every failed one, in order, nothing else" (the hand-over to the writer task is inferred).
+async fn cancel_writes(seed: u64, trace: &str, rep: Arc<Mutex<Report>>) {
+    let clock = ctx::RealClock;
+    let root = ctx::test_root(&clock);
+    let ctx = &root.with_timeout(time::Duration::seconds(40));
+    let frame_cells = 4u64;
+    let frame = frame_cells * CELL as u64;
+    let qa = StreamQueue::new(ctx, 1, limiter::Rate::INF);
+    let qb = StreamQueue::new(ctx, 1, limiter::Rate::INF);
+    // A: reader (accept side), small read buffer; B: writer (connect side)
+    let mux_a = Mux { cfg: mux_cfg(frame, 2 * frame, 8), connect: BTreeMap::new(), accept: [(0, qa.clone())].into_iter().collect() };
+    let mux_b = Mux { cfg: mux_cfg(frame, 1 << 20, 1000), accept: BTreeMap::new(), connect: [(0, qb.clone())].into_iter().collect() };
+    let (ea, eb) = tokio::io::duplex(512);
+    let log = EventLog::new();
+    log.emit(json!({"e": "header", "frame": frame_cells, "seed": seed, "cell_bytes": CELL}));
+    let failed = Arc::new(AtomicU64::new(0));
+    let done_writing = Arc::new(AtomicU64::new(0));
+    let mut rng = rand::rngs::StdRng::seed_from_u64(seed ^ 0x5eed);
+    let sizes: Vec<u16> = (0..36).map(|_| rng.gen_range(1..=6u16)).collect();
+    let res: Result<(), ctx::Error> = scope::run!(ctx, |ctx, s| async {
+        s.spawn_bg(async {
+            let _ = mux_a.run(ctx, ea).await;
+            Ok(())
+        });
+        s.spawn_bg(async {
+            let _ = mux_b.run(ctx, eb).await;
+            Ok(())
+        });
+        let reader = s.spawn(async {
+            let mut st = qa.open(ctx).await?;
+            // read nothing until the writer has run into the back-pressure a few times (or is done)
+            while failed.load(Ordering::SeqCst) < 4 && done_writing.load(Ordering::SeqCst) == 0 {
+                ctx.sleep(time::Duration::milliseconds(5)).await?;
+            }
+            let mut all = vec![];
+            loop {
+                match st.read(ctx, 4096).await {
+                    Ok(b) => {
+                        let n = b.len();
+                        all.extend(b);
+                        if n < 4096 {
+                            break;
+                        }
+                    }
+                    Err(_) => break,
+                }
+            }
+            Ok(all)
+        });
+        let mut st = qb.open(ctx).await?;
+        for (i, n) in sizes.iter().enumerate() {
+            let data: Vec<u8> = (0..*n).flat_map(|off| cell(i as u16, off)).collect();
+            let ok = st.write_all(&ctx.with_timeout(time::Duration::milliseconds(25)), &data).await.is_ok();
+            log.emit(json!({"e": "w", "i": i, "n": n, "ok": ok}));
+            if !ok {
+                failed.fetch_add(1, Ordering::SeqCst);
+            }
+        }
+        done_writing.store(1, Ordering::SeqCst);
+        // end of stream: what is still buffered is flushed with the CLOSE
+        st.close_write();
+        log.emit(json!({"e": "close"}));
+        let all = reader.join(ctx).await?;
+        let mut cells = vec![];
+        for ch in all.chunks(CELL) {
+            if ch.len() == CELL {
+                let (i, off) = (u16::from_le_bytes([ch[0], ch[1]]), u16::from_le_bytes([ch[2], ch[3]]));
+                if ch == &cell(i, off)[..] {
+                    cells.push(json!([i, off]));
+                    continue;
+                }
+            }
+            cells.push(json!([65535, ch.len()])); // not a cell of the pattern
+        }
+        log.emit(json!({"e": "got", "cells": cells}));
+        Ok(())
+    })
+    .await;
+    let mut r = rep.lock().unwrap();
+    r.add("cancel_writes_failed_calls", failed.load(Ordering::SeqCst));
+    r.add("cancel_writes_runs", 1);
+    if res.is_err() {
+        r.notes.push("cancel_writes: the scenario did not complete within its time limit".to_string());
+        r.add("cancel_writes_incomplete", 1);
+    } else {
+        log.write(trace);
+    }
+}
+
 fn main() {
     quiet_panics();
     let a = args();
@@ -438,7 +543,10 @@ fn main() {
             cooperative(seed, log.clone(), rep.clone()).await;
             flood(seed, rep.clone()).await;
             control_flood(seed, rep.clone()).await;
-            if let Some(p) = a.get(3) {
+            if let Some(t) = a.get(4) {
+                cancel_writes(seed, t, rep.clone()).await;
+            }
+            if let Some(p) = a.get(3).filter(|p| p.as_str() != "-") {
                 for case in read_cases(p) {
                     data_flood_exact(&case, rep.clone()).await;
                 }
